@@ -505,12 +505,15 @@ func (c *Collection) Update(key string, exp Exp, callback sgbucket.UpdateFunc) (
 		if newRaw != nil || delete {
 			raw = newRaw
 		}
+		// The expiry of this attempt only: one returned in an attempt that is then abandoned
+		// (CAS mismatch) must not carry over into the retry.
+		writeExp := exp
 		if newExp != nil {
-			exp = *newExp
+			writeExp = *newExp
 		}
 
 		var opt sgbucket.WriteOptions = 0 // Hardcoded; callback cannot customize this :(
-		casOut, err = c.WriteCas(key, exp, cas, raw, opt)
+		casOut, err = c.WriteCas(key, writeExp, cas, raw, opt)
 		if err == nil {
 			break
 		} else if _, ok := err.(sgbucket.CasMismatchErr); !ok {
